@@ -166,6 +166,7 @@ def check_program(program, st, report):
         # counts of such pipelines are not deterministic, so they are not judged here
         st['not_judged_cache_under_prefetch'] += 1
         return ref
+    common.gc_tick()
     st['states'] += 1
     top = program['ops'][-1][0] if program['ops'] else program['source'][0]
     # (a) construction runs nothing
